@@ -162,6 +162,8 @@ def _sigspec(toks, i, wires):
             out += p
         bits = out
     elif t[0] in "\\$":
+        if t not in wires:
+            raise Unsupported(f"reference to an undeclared wire {t}")
         w = wires[t][0]
         bits = [("w", t, k) for k in range(w)]
         i += 1
@@ -178,8 +180,12 @@ def _sigspec(toks, i, wires):
         sel = toks[i][1:-1]
         if ":" in sel:
             hi, lo = (int(x) for x in sel.split(":"))
+            if not (0 <= lo <= hi < len(bits)):
+                raise Unsupported(f"slice [{sel}] runs past the end of a {len(bits)}-bit value ({t})")
             bits = bits[lo:hi + 1]
         else:
+            if not (0 <= int(sel) < len(bits)):
+                raise Unsupported(f"bit [{sel}] is outside a {len(bits)}-bit value ({t})")
             bits = [bits[int(sel)]]
         i += 1
     return bits, i
